@@ -513,27 +513,56 @@ func ruleR36_2(c *Check) {
 	r := c.Rule("R36.2", "E5", 3, "commitAndSend.setVersion assigns the commit timestamp only to entries whose version is 0 and clears keepTogether for the others; SetEntryAt stores the caller's version in the entry",
 		"overwriting an explicit version moves the write to another timestamp; keeping transaction framing for mixed versions makes replay reject the transaction")
 	f := w.F("badger.Txn.commitAndSend")
-	sv := f.LitVar("setVersion")
 	ver := w.Field("badger.Entry.version")
+	pw, dw := w.Field("badger.Txn.pendingWrites"), w.Field("badger.Txn.duplicateWrites")
+	// the assignment of the commit timestamp, wherever it is written (a local closure or inline)
 	n := 0
-	for _, s := range sv.Sites(selStore(ver)) {
+	covered := map[*types.Var]bool{}
+	var k keyer
+	cover := func(own *Fn, at ast.Node) {
+		// the range loop over a queue this store runs in: directly, or through calls of the closure it sits in
+		mark := func(fn *Fn, nd ast.Node) {
+			for p := w.parentOf(nd); p != nil; p = w.parentOf(p) {
+				if rs, ok := p.(*ast.RangeStmt); ok {
+					if fld := w.fieldOf(rs.X); fld == pw || fld == dw {
+						covered[fld] = true
+					}
+				}
+				if _, isLit := p.(*ast.FuncLit); isLit {
+					break
+				}
+			}
+		}
+		mark(own, at)
+		if own != f {
+			f.walkDeep(func(g *Fn, x ast.Node) bool {
+				if call, ok := x.(*ast.CallExpr); ok && w.calleeFn(g, call) == own {
+					mark(g, call)
+				}
+				return true
+			})
+		}
+	}
+	for _, o := range f.SitesDeep(selStore(ver)) {
 		n++
 		okv := false
-		for _, g := range w.Guards(sv, s) {
+		for _, g := range w.Guards(o.SiteFn, o.Site) {
 			if eqOf(g, true, w.isField(ver), w.isConst(0)) {
 				okv = true
 			}
 		}
-		r.Check(okv, sv, "commit timestamp given only to entries without a version", s, "e.version assigned although the entry has an explicit version")
+		r.Check(okv, o.SiteFn, k.key("commit timestamp given only to entries without a version", w, o.Site), o.Site, "e.version assigned although the entry has an explicit version")
+		cover(o.SiteFn, o.Site)
 	}
-	r.Exists(n >= 1, sv, "version assignment site", nil, "setVersion no longer assigns e.version")
-	// keepTogether cleared in the else arm
+	r.Exists(n >= 1, f, "version assignment site", nil, "commitAndSend no longer assigns e.version")
+	r.Check(covered[pw] && covered[dw], f, "versions set for latest and duplicate writes", nil, "the commit timestamp is not given to the entries of both pendingWrites and duplicateWrites: an earlier version-less write of a key that was later written with an explicit version goes out at version 0")
+	// keepTogether cleared for entries with an explicit version
 	okk := false
-	sv.walk(func(x ast.Node) bool {
-		if as, ok := x.(*ast.AssignStmt); ok && len(as.Lhs) == 1 {
+	f.walkDeep(func(own *Fn, x ast.Node) bool {
+		if as, ok := x.(*ast.AssignStmt); ok && len(as.Lhs) == 1 && len(as.Rhs) == 1 {
 			if id, ok := as.Lhs[0].(*ast.Ident); ok && isBoolLocal(w, id) {
 				if tv := w.Info.Types[as.Rhs[0]]; tv.Value != nil && tv.Value.String() == "false" {
-					for _, g := range w.Guards(sv, as) {
+					for _, g := range w.Guards(own, as) {
 						if eqOf(g, false, w.isField(ver), w.isConst(0)) {
 							okk = true
 						}
@@ -543,22 +572,7 @@ func ruleR36_2(c *Check) {
 		}
 		return true
 	})
-	r.Check(okk, sv, "explicit versions disable transaction framing", nil, "keepTogether is not cleared for entries with an explicit version")
-	// both queues get versions
-	pw, dw := w.Field("badger.Txn.pendingWrites"), w.Field("badger.Txn.duplicateWrites")
-	cnt := map[*types.Var]int{}
-	f.walk(func(x ast.Node) bool {
-		if call, ok := x.(*ast.CallExpr); ok && w.calleeFn(f, call) == sv {
-			for p := w.parentOf(call); p != nil; p = w.parentOf(p) {
-				if rs, ok := p.(*ast.RangeStmt); ok {
-					cnt[w.fieldOf(rs.X)]++
-					break
-				}
-			}
-		}
-		return true
-	})
-	r.Check(cnt[pw] == 1 && cnt[dw] == 1, f, "versions set for latest and duplicate writes", nil, "setVersion is not applied to both pendingWrites and duplicateWrites")
+	r.Check(okk, f, "explicit versions disable transaction framing", nil, "keepTogether is not cleared for entries with an explicit version")
 	// SetEntryAt
 	se := w.F("badger.WriteBatch.SetEntryAt")
 	oks := false
